@@ -533,9 +533,38 @@ def _area_cells(area):
     return [(c, r) for r in range(r1, r2 + 1) for c in range(n1, n2 + 1)]
 
 
+def _check_ops_on_sheets(case):
+    """Operands whose areas lie on two sheets (A and B are tuples of (sheet, rectangle)): cells are (sheet id, column, row)."""
+    from formulas.ranges import Ranges
+    kind, A, B = case
+
+    def mk(X):
+        out = Ranges()
+        for sheet, rc in X:
+            out.ranges += _mkr((rc,), sheet).ranges
+        return out
+
+    def cells_of(X):
+        return {(sheet.upper(), c, r) for sheet, rc in X for c, r in _cells(rc)}
+    a2, b2 = mk(A), mk(B)
+    try:
+        res = a2.simplify() if kind == 'simplify@' else a2 - b2
+    except Exception as ex:
+        return '%s of %s, %s raised %s: %s' % (kind, a2, b2, type(ex).__name__, str(ex)[:80])
+    want = cells_of(A) if kind == 'simplify@' else cells_of(A) - cells_of(B)
+    got = [(z['sheet_id'], c, r) for z in res.ranges for c, r in _area_cells(z)]
+    if len(got) != len(set(got)):
+        return '%s of %s, %s = %s covers a cell twice' % (kind, a2, b2, res)
+    if set(got) != want:
+        return '%s of %s, %s = %s covers %r, expected %r' % (kind, a2, b2, res, sorted(set(got)), sorted(want))
+    return None
+
+
 def _check_ops(case):
     import numpy as np
     from formulas.ranges import Ranges
+    if case[0].endswith('@'):
+        return _check_ops_on_sheets(case)
     from formulas.errors import InvalidRangeError
     from formulas.tokens.operand import NULL
     kind, A, B = case
@@ -625,6 +654,10 @@ def _ops_cases(tier, rng):
         A = tuple(rng.choice(R) for _ in range(rng.randrange(1, 4)))
         B = tuple(rng.choice(R) for _ in range(rng.randrange(1, 4)))
         cases.append((rng.choice(['and', 'add', 'or', 'sub', 'simplify']), A, B))
+    for _ in range(k // 5):       # reference sets spread over two sheets (sheet-qualified areas)
+        A = tuple((rng.choice(['S1', 'S2']), rng.choice(R)) for _ in range(rng.randrange(1, 4)))
+        B = tuple((rng.choice(['S1', 'S2']), rng.choice(R)) for _ in range(rng.randrange(1, 4)))
+        cases.append((rng.choice(['simplify@', 'sub@']), A, B))
     return cases
 
 
